@@ -322,6 +322,11 @@ class UndefVersionFieldInspector(wrapt.ObjectProxy):
     def schemas(self):
         return WrappedLiftedDict(self.__wrapped__.schemas, UndefVersion._mark_class)
 
+    @property
+    def origin(self):
+        # the class the field was defined in is (a parent of) the schema of unspecified version
+        return UndefVersion._mark_class(self.__wrapped__.origin)
+
     def __repr__(self):
         return repr(self.__wrapped__)
 
